@@ -18,7 +18,7 @@ import c14_exact as X14
 FPROG = None; CPROG = None; CONSTS = None; SIZEOF = None; NATIVE = None
 
 def tables(thorough):
-    shapes = [((2,), (8,), 0), ((0,), (3,), 3), ((1, 2), (5, 7), 1), ((3, 0, 1), (9, 4, 6), 2), ((2,), (70,), 0), ((3, 2), (40, 30), 5), ((1, 1, 1), (12, 9, 14), 50), ((5,), (100,), 12), ((2, 1, 2), (10, 8, 9), 0)]
+    shapes = [((2,), (8,), 0), ((0,), (3,), 3), ((1, 2), (5, 7), 1), ((3, 0, 1), (9, 4, 6), 2), ((2,), (70,), 0), ((3, 2), (40, 30), 5), ((1, 1, 1), (12, 9, 14), 50), ((5,), (100,), 12), ((2, 1, 2), (10, 8, 9), 0), ((5, 1, 2), (20, 8, 22), 2)]
     if thorough: shapes += [((2, 2, 2, 2), (7, 8, 7, 9), 4), ((1, 0, 2, 1, 1), (5, 3, 7, 4, 5), 0), ((1, 1, 1, 1, 1, 1), (4, 4, 5, 4, 4, 5), 7), ((4,), (300,), 30), ((2, 3), (90, 25), 20), ((0, 5), (25, 40), 1)]
     out = []
     for si, (orders, nks, naux) in enumerate(shapes):
